@@ -1,6 +1,6 @@
 (* C06 — property theorems only: each restates the full statement and is closed by the lemma proved in Proofs/. *)
 From Coq Require Import ZArith List Bool.
-From NPS Require Import ListAux PySlice NumpySem Scatter BuildIdx XorBroadcast View Index Assign Reduce Scan RaOps Heap Hash HashRun BitArr RLE RLEOps RLE2d DataClass RowsSpec AssignSpec MapSpec Denote Chain MaterialiseWF.
+From NPS Require Import ListAux PySlice NumpySem Scatter BuildIdx XorBroadcast View Index Assign Reduce Scan RaOps Heap Hash HashRun BitArr RLE RLEOps RLE2d DataClass RowsSpec AssignSpec MapSpec Denote Chain MaterialiseWF NoWriteThrough.
 Import ListNotations.
 Open Scope Z_scope.
 
@@ -44,3 +44,14 @@ Theorem C06_rows_of_denote :
   forall (A : Type) (dflt : A) (a : ra A), WF A a -> rows_of a = Ok (denote A dflt a).
 Proof. exact rows_of_denote. Qed.
 Print Assumptions C06_rows_of_denote.
+
+Theorem C06_assign_leaves_older_arrays_unchanged :
+  forall (A : Type) (dflt : A) (sel : Type)
+         (apply_sel : forall X : Type, sel -> list (list X) -> list (list X)) (pre : list (op A sel))
+         (x : nat) (s : sel) (v : A) (y : nat),
+       (y < x)%nat ->
+       content A dflt
+         (fst (step A dflt sel apply_sel (heap_after A dflt sel apply_sel pre) (OAssign A sel x s v))) y =
+       content A dflt (heap_after A dflt sel apply_sel pre) y.
+Proof. exact assign_leaves_older_arrays_unchanged. Qed.
+Print Assumptions C06_assign_leaves_older_arrays_unchanged.
